@@ -29,7 +29,7 @@ checks = {
          "For every civil day of the year set (time of day rotating over the 26 slot edges; thorough: six times of day, plus a light pass over every other day of years 1..9998 that visits Solar, Lunar, EightChar and LunarTime only) the object graph reachable from the date (25 types) is built and every exported zero-argument method is called; totality, index ranges, vocabulary membership, non-empty strings and duplicate-free lists are checked on every result. The decoders of the packed yi/ji and shen-sha strings are additionally enumerated over their complete key space (60x60, 24x60).",
          "name-suffix keyed range/vocabulary rules; fixed list of optional (possibly empty) strings stated in evidence assumptions", "4 C08"),
  "C09": ("explicit-state BFS over call histories on the real package state (fixpoint on a canonical hidden-state digest, cross-checked by an unreduced depth-bounded enumeration) + adjacent-cache and order-independence sweeps + accessor-purity snapshots + stateless exploration of all interleavings at lock points under a hand-written controlled scheduler with iterative preemption bounding + separate free-running race-detector pass",
-         "Histories: every call of a 40-call alphabet from every reachable hidden state must return its pristine-state value; all sequences to depth 3 enumerated without reduction. Schedules: the library's sync import is redirected (build overlay) to a shim whose Lock/Unlock are scheduling points; about 240 scenarios of 2-3 threads over an 11-operation alphabet (year cache, shared accessors, civil-side callers in a leap year, a common year and 1582) are run under every schedule up to the bound (quick 0,1,2; thorough unbounded with state-key pruning), each result compared with its sequential reference, deadlock = no enabled thread, lock and cache checked at the end. Also: for every year of the year set the same ~130 calls with the year cache primed by Y-1/Y+1/Y+2; one broad probe over all days of a year subset in five visiting orders (one process each) merged as a functional-dependence table; deep private-state snapshots of 26 object types before/after every exported zero-argument method (a write without lock operations = unsynchronised write by a read-only accessor). Long and structured histories, one process each, merged as functional-dependence tables keyed by the call: held objects and 124 probe days asked at process start, after all 123,658 lunar months of years 1..9998 and after 8,003 out-of-range year requests; base day asked after a day +-2^k years / months away with its objects held; a structural input (October 1582, leap days, range ends ...) as the very first call of a process; helper functions called with unrecognised names before their whole key space is enumerated; objects built before the cache is primed with a neighbouring year and used afterwards; exported tables compared before/after every accessor. Worker processes rotate their time zone. Below lock level: go -race on free-running copies of the same thread bodies and shared-accessor sweeps.",
+         "Histories: every call of a 40-call alphabet from every reachable hidden state must return its pristine-state value; all sequences to depth 3 enumerated without reduction. Schedules: the library's sync import is redirected (build overlay) to a shim whose Lock/Unlock are scheduling points; 237 scenarios of 2-3 threads over an 11-operation alphabet (year cache, shared accessors, civil-side callers in a leap year, a common year and 1582) are run under every schedule up to the bound (quick 0,1,2; thorough unbounded with state-key pruning), each result compared with its sequential reference, deadlock = no enabled thread, lock and cache checked at the end. Also: for every year of the year set the same ~130 calls with the year cache primed by Y-1/Y+1/Y+2; one broad probe over all days of a year subset in five visiting orders (one process each) merged as a functional-dependence table; deep private-state snapshots of 26 object types before/after every exported zero-argument method (a write without lock operations = unsynchronised write by a read-only accessor). Long and structured histories, one process each, merged as functional-dependence tables keyed by the call: held objects and 124 probe days asked at process start, after all 123,658 lunar months of years 1..9998 and after 8,003 out-of-range year requests; base day asked after a day +-2^k years / months away with its objects held; a structural input (October 1582, leap days, range ends ...) as the very first call of a process; helper functions called with unrecognised names before their whole key space is enumerated; objects built before the cache is primed with a neighbouring year and used afterwards; exported tables compared before/after every accessor. Worker processes rotate their time zone. Below lock level: go -race on free-running copies of the same thread bodies and shared-accessor sweeps.",
          "scheduling points at mutex operations + race detector for unsynchronised accesses; hidden-state inventory confirmed by a go/ast scan at run time", "4 C09 / 3.3"),
  "C10": ("exhaustive enumeration of moments (days x 13 slot entries x 2 conventions, all Jie instants +-1s and slot ends, base years) with forward conversion as oracle",
          "Every enumerated moment's four pillars are fed to the reverse lookup; the days around the civil calendar's irregular places (end of February in century years, the 1582 switch) with the year itself and year 1 as base year; completeness (a result in the same slot), soundness (every result converts forward to the same pillars, not before the base year) and strict order are checked on every lookup.",
